@@ -202,6 +202,25 @@ pub fn gc_cycle(tm: &mut TreadMillSync, full_heap: bool, young: &Vec<ObjectRefer
     (n, m)
 }
 ''',
+    # vacuity guard: same preconditions / axioms, `ensures false` -- each must fail
+    "canaries": r'''
+proof fn canary_tm_axioms(s: HashSet<ObjectReference>)
+    ensures false
+{
+    broadcast use axiom_objref_key_model, axiom_hashset_default_empty;
+}
+fn canary_tm_ops(tm: &mut TreadMillSync, o: ObjectReference)
+    requires old(tm).wf(), !old(tm).all().contains(o),
+    ensures false
+{
+    broadcast use axiom_objref_key_model;
+    tm.add_to_treadmill(o, true);
+    tm.flip(false);
+    tm.copy(o, true);
+    let _ = tm.collect_nursery();
+    let _ = tm.collect_mature();
+}
+''',
     "dropped": ["the Mutex around TreadMillSync: `self.sync.lock().unwrap()` / `get_mut().unwrap()` (mutual exclusion is NOT verified)",
                 "trace!/debug! logging", "debug_assert! (turned into requires clauses of `copy`)",
                 "TreadMill::new / Default / Debug impl / enumerate_objects (dyn ObjectEnumerator visitor)"],
